@@ -89,7 +89,7 @@ RULE = ('payloads = 1-6 fragments drawn from control/markup/quote/encoded-word s
         'plane and ASCII words; each payload is placed in one sink (response header value/name/bytes value, echo of a '
         'request header incl. RFC 2047 form, cookie value/attribute, session cookie path via path_header, status '
         'reason, HTTPRedirect URL(s), trailing-slash redirect query, Host-derived redirect, HTTPError message/reason, '
-        '404 path, request line, Referer, User-Agent, login) under HTTP/1.0 or 1.1, plus unit-level drives of the '
+        '404 path, tools.proxy base from X-Forwarded-Host, failing custom error page, request line, Referer, User-Agent, login) under HTTP/1.0 or 1.1, plus unit-level drives of the '
         'same payload; non-trivial = payload contains a control, markup, quote, backslash or non-ASCII character; '
         'distinct = distinct (sink, payload, protocol)')
 
@@ -165,7 +165,7 @@ WSGI_SINKS = [
     ('hv', 10), ('hn', 6), ('hb', 4), ('echo', 8), ('echo2047', 6), ('ckval', 5), ('ckattr', 12),
     ('sesspath', 7), ('sesspath2047', 5), ('reason', 9), ('redirect', 8), ('redirect2', 3), ('slashredir', 4),
     ('hostredir', 4), ('errmsg', 8), ('errreason', 4), ('errmsg_tb', 3), ('nf_path', 7), ('nf_raise', 3),
-    ('reqline', 5), ('referer', 5), ('agent', 5), ('login', 5), ('multi', 6), ('errfail', 4),
+    ('reqline', 5), ('referer', 5), ('agent', 5), ('login', 5), ('multi', 6), ('errfail', 4), ('proxybase', 4),
 ]
 
 
@@ -186,7 +186,7 @@ def gen_case(rng):
         case['name'] = rng.choice(HEADER_NAMES)
     if sink == 'ckattr':
         case['attr'] = rng.choice(COOKIE_ATTRS)
-    if sink in ('redirect', 'redirect2', 'hostredir'):
+    if sink in ('redirect', 'redirect2', 'hostredir', 'proxybase'):
         case['rstatus'] = rng.choice([None, None, 300, 301, 302, 303, 307, 308, 305, 304])
     if sink in ('errmsg', 'errmsg_tb', 'errreason', 'errfail'):
         case['code'] = rng.choice([400, 401, 403, 404, 405, 410, 418, 500, 503, 599])
@@ -269,6 +269,10 @@ def _get_app():
         def cf(self, *a, **kw):
             return act()
 
+        @cherrypy.expose
+        def px(self, *a, **kw):
+            return act()
+
     def failing_error_page(**kwargs):
         raise ValueError(state['plan'].get('fail_text', ''))
 
@@ -278,6 +282,7 @@ def _get_app():
         '/sess': {'tools.sessions.on': True, 'tools.sessions.path_header': 'X-Path',
                   'tools.sessions.clean_freq': 0, 'request.show_tracebacks': False},
         '/cf': {'error_page.default': failing_error_page, 'request.show_tracebacks': False},
+        '/px': {'tools.proxy.on': True, 'request.show_tracebacks': False},
     }
     app = cherrypy.Application(Root(), '', conf)
     cap = _Capture()
@@ -329,6 +334,11 @@ def build_request(case):
     elif sink == 'hostredir':
         env['HTTP_HOST'] = to_wsgi_latin1(p) if not all(ord(c) < 256 for c in p) else p
         plan['raise'] = ['redirect', 'target', case.get('rstatus')]
+    elif sink == 'proxybase':
+        # tools.proxy copies X-Forwarded-Host into request.base WITHOUT SanitizedHost
+        path = '/px'
+        env['HTTP_X_FORWARDED_HOST'] = to_wsgi_latin1(p) if not all(ord(c) < 256 for c in p) else p
+        plan['raise'] = ['redirect', 'target?' + p[:8], case.get('rstatus')]
     elif sink == 'errmsg':
         plan['raise'] = ['error', case['code'], p]
     elif sink == 'errmsg_tb':
